@@ -12,7 +12,7 @@
 From Coq Require Import List Arith.
 From PM Require Import Model.Data Model.Mark Model.Tree Model.StepMap Model.Step Spec.Tokens
   Proofs.ReplaceValid Proofs.SliceSides Proofs.TokenBasics Proofs.ReplaceTokens Proofs.SliceShape Proofs.TokenLaws
-  Proofs.StepAlgebra Proofs.TokenInj Proofs.ReplaceCanon Proofs.DocEquality Proofs.NodeSteps Proofs.NodeStepCommute.
+  Proofs.StepAlgebra Proofs.TokenInj Proofs.ReplaceCanon Proofs.DocEquality Proofs.NodeSteps Proofs.NodeStepCommute Proofs.MarkSteps Proofs.MarkCommute.
 Import ListNotations.
 
 Theorem C17_separated_replace_steps_commute : forall s f1 t1 s1 st1 f2 t2 s2 st2 doc da db,
@@ -80,3 +80,15 @@ Theorem C17_node_step_before_replace_commute : forall s f t sl structure st pos 
     DT s dab = DT s dba.
 Proof. exact node_step_before_replace_commute. Qed.
 Print Assumptions C17_node_step_before_replace_commute.
+
+(* two mark steps (add or remove, any marks) over disjoint ranges [f1,t1) and [f2,t2), t1 <= f2: their maps are empty,
+   so rebasing leaves both as they are, and both orders give the same token sequence (hypothesis: the two intermediate
+   documents are valid - decidable, evaluated per case) *)
+Theorem C17_separated_mark_steps_commute : forall s a b f1 t1 f2 t2 doc da db dab dba,
+  check s doc = true -> check s da = true -> check s db = true ->
+  mark_step_range a = Some (f1, t1) -> mark_step_range b = Some (f2, t2) -> f1 <= t1 -> t1 <= f2 -> f2 <= t2 ->
+  apply s a doc = ROk da -> apply s b doc = ROk db ->
+  apply s b da = ROk dab -> apply s a db = ROk dba ->
+  step_map a (get_map s b) = Some a /\ step_map b (get_map s a) = Some b /\ DT s dab = DT s dba.
+Proof. exact separated_mark_steps_commute. Qed.
+Print Assumptions C17_separated_mark_steps_commute.
